@@ -374,10 +374,14 @@ class Run:
             self.probe('diag:line_skipped_under_jax_trace')
             return
         self.probe(f'line:{code.co_name}')
+        before = self.sched.switches
         try:
             self.thread_point(fr, 'line')
         except Abort:
             pass
+        if self.sched.switches != before:
+            # a context switch happened between two lines of library code, here:
+            self.probe(f'preempted:{code.co_name}:+{line - code.co_firstlineno}')
 
     # ------------------------------------------------------------------ settings
     def build_kw(self, uid: int, kwspec: dict) -> dict:
